@@ -11,11 +11,12 @@ ID = "C09"
 RULE = (
     "case = family of 2-4 point-compatible masters (random master; masters k>0 are position-based perturbations of amplitude 0.1-5, so that single-master cu2qu "
     "would pick different spline lengths; cubic / quadratic / mixed curves; nested, mixed and repeated-base composites; a component whose 2x2 differs in one master "
-    "at any component index; an interior line that has zero length in one master only; optional sparse layer master; designspace or plain list of UFOs) x "
+    "at any component index; an interior line that has zero length in one master only; optional sparse master (a layer or a font of its own), a base interpolated twice at the sparse location; designspace or plain list of UFOs) x "
     "{compileInterpolatableTTFs, compileInterpolatableTTFsFromDS, compileInterpolatableOTFsFromDS} x {flattenComponents, skipExportGlyphs, lib filters, optimizeCFF}; "
     "oracle = structure signature per output glyph (TrueType: contour end points + on/off flags, or component bases + quantised 2x2; CFF: operator sequence per contour "
     "with the closing line made explicit) equal in every master font containing the glyph; simple-vs-composite decided jointly; sparse masters contain only .notdef, layer "
-    "glyphs and their component closure. Non-trivial = single-master cu2qu would choose different spline lengths for some glyph, or a 2x2 differs, or a sparse master. "
+    "glyphs and their component closure; and (TrueType) every full master renders its own source master within the C02 bound (masters bent or filled alike stay "
+    "compatible but are not faithful). Non-trivial = single-master cu2qu would choose different spline lengths for some glyph, or a 2x2 differs, or a sparse master. "
     "Distinct = case hash."
 )
 ASSUMPTIONS = [
@@ -245,6 +246,32 @@ def run_case(case, ctx):
         ctx.label("sparse-master")
         if fam["sparse"].get("own_ufo"):
             ctx.label("sparse-master-is-its-own-ufo")
+    # master fidelity (TrueType): every full master renders its own source within the C02 bound - a slip that bends all masters the same way
+    # (or fills a master from another master's glyphs) keeps them compatible but not faithful
+    if ttf:
+        from ufoverif import geom
+        from ufoverif.checks import c02
+
+        mspecs = F.master_specs(fam)
+        skipped = set(case["opts"].get("skipExportGlyphs", []))
+        upm = fam["base"]["info"].get("unitsPerEm", 1000)
+        for i in range(nfull):
+            gi_m = R.glyph_index(mspecs[i])
+            glyf = out[i]["glyf"]
+            memo = {}
+            for n in out[i].getGlyphOrder():
+                if n not in gi_m or n in skipped:
+                    continue
+                src = [R.cycle(pts) for pts, rev in R.resolve(gi_m, n)]
+                src = [c_ for c_ in src if c_ is not None]
+                got_r = c02.render_tt(glyf, n)
+                if len(src) != len(got_r):
+                    raise Violation("number of rendered contours of a master differs from its source", master=i, glyph=n, got=len(got_r), expected=len(src))
+                tolm = c02.tol_of(glyf, gi_m, n, 0.001 * upm, memo) + 0.15
+                bad = c02.match_contours([geom.flatten_cycle(c_, 0.05) for c_ in src], [geom.flatten_cycle(c_, 0.05) for c_ in got_r], tolm)
+                if bad is not None:
+                    raise Violation("a compiled master does not render its own source master", master=i, glyph=n, tolerance=tolm, worst_point=bad[1], options=case["opts"])
+                ctx.count("master-glyphs-compared-with-their-source")
     # classification
     cubic = any(p[2] == "curve" for g in fam["base"]["glyphs"] for c in g.get("contours", []) for p in c)
     if cubic:
